@@ -117,16 +117,7 @@ def run(tier):
         uncovered[family] = miss
         check.cov["variants_%s" % family] = total
         # which productions of the real grammar did these programs reach?  (goyacc debug stream, see LRDriver.tla)
-        lt = [{"op": "lrtrace", "src": t["src"], "ver": m["ver"], "tables": k == 0} for k, (m, t, r) in enumerate(res)
-              if m["layout"] == "none" and m["ver"] == vers[0]]
-        rules, nrules = set(), 0
-        for r in wp.run(lt):
-            if r.get("panic") or r.get("hang") or r.get("crash"):
-                continue
-            nrules = nrules or len(r.get("r2") or [])
-            rules.update(e[1] for e in r["evs"] if e[0] == "reduce")
-        check.cov["grammar_rules_reduced_%s" % family] = "%d of %d" % (len(rules), max(nrules - 1, 0))
-        check.cov["grammar_rules_never_reduced_%s" % family] = [i for i in range(1, nrules) if i not in rules][:400]
+        covsrc = [t["src"] for (m, t, r) in res if m["layout"] == "none" and m["ver"] == vers[0]]
         if family == "7":
             sample = res[len(res) // 2]
             check.sample({"direction": "spec->impl", "src": sample[1]["src"], "variants_used": sample[0]["used"][:12]})
@@ -138,6 +129,7 @@ def run(tier):
                                       exhaustive=True, maxchoices=7, timeout=3000)
         res = progs.run_programs(check, wp, family, behs, table, core.seed(), ["none"], progs.VERS[family][:1])
         classify(check, res, table)
+        chainres = res
         check.cov["exhaustive_expressions_%s" % family] = len(behs)
         # the same for constant expressions (PHP 5 has a grammar of its own for them: static_operation)
         byid = {v["id"]: v for v in table["variants"]}
@@ -146,6 +138,17 @@ def run(tier):
         res = progs.run_programs(check, wp, family, behs, table, core.seed(), ["none"], progs.VERS[family][:1])
         classify(check, res, table)
         check.cov["exhaustive_constant_expressions_%s" % family] = len(behs)
+        covsrc += [t["src"] for (m, t, r) in res]
+        covsrc += [t["src"] for (m, t, r) in chainres[:: max(1, len(chainres) // 6000)]]
+        lt = [{"op": "lrtrace", "src": x, "ver": vers[0], "tables": k == 0} for k, x in enumerate(dict.fromkeys(covsrc))]
+        rules, nrules = set(), 0
+        for r in wp.run(lt):
+            if r.get("panic") or r.get("hang") or r.get("crash"):
+                continue
+            nrules = nrules or len(r.get("r2") or [])
+            rules.update(e[1] for e in r["evs"] if e[0] == "reduce")
+        check.cov["grammar_rules_reduced_%s" % family] = "%d of %d" % (len(rules), max(nrules - 1, 0))
+        check.cov["grammar_rules_never_reduced_%s" % family] = [i for i in range(1, nrules) if i not in rules][:400]
     # a sequence of two valid statements is accepted and is the two statements
     for family in ("7", "5"):
         for a, b, ver, what, detail in progs.statement_pairs(check, wp, family, core.seed(), 20000 if tier == "quick" else 300000):
